@@ -141,7 +141,7 @@ type Outcome struct {
 	Handle    int      `json:"handle,omitempty"` // index of the writer handle created
 	WSize     int64    `json:"wsize,omitempty"`  // writer Size() after the op
 	N         int      `json:"n,omitempty"`
-	RangeIs   bool     `json:"range_invalid,omitempty"` // errors.Is(err, ErrRangeInvalid)
+	RangeIs   bool     `json:"range_invalid,omitempty"`    // errors.Is(err, ErrRangeInvalid)
 	Extra     string   `json:"descriptor_extra,omitempty"` // descriptor fields beyond media type, digest and size, rendered
 	error     error
 }
